@@ -40,6 +40,23 @@ class HistMin(Hist):
             return
         self.ev['out'] = 'ok'
         self.res.stats.probes.bump('population-member-minimised')
+        # minimize_subcircuits edits Gate objects of its argument in place (all-trivial branch); a Gate object may be
+        # shared with other circuits of the population (add_gate of one object to two circuits, replace_subcircuit).
+        # No listed property speaks about that, so every member is simply re-read here (counted, never judged).
+        for o in list(self.pop):
+            if o is s:
+                continue
+            try:
+                net, users = observe.snap(o.real)
+                if not observe.same_view(net, o.net) or users != o.users:
+                    self.res.cross.bump('minimize_subcircuits-changed-a-gate-object-shared-with-another-circuit')
+                    if observe.wf(o.real, net, users, with_copy=False):
+                        self.pop.remove(o)  # no longer a well-formed circuit: not raw material for the other checks
+                    else:
+                        o.net, o.users = net, users
+            except Exception:
+                if o in self.pop:
+                    self.pop.remove(o)
         # the argument may have been edited in place (all-trivial branch): re-read it; it must still be a circuit
         try:
             s.net, s.users = observe.snap(s.real)
